@@ -338,7 +338,23 @@ def run_case(case, ctx):
     ctx.sample({"case": desc}, 5)
     key = lambda clause: "C12:%s:%s:%s" % (op, clause, desc["class"] if op in ("non_negative", "monotone", "unimodal", "soft_sparsity", "normalized_sparsity", "l2", "procrustes") else "any")
 
-    out = f(v.copy())
+    # the same values presented in another memory layout / as a read-only array / (integer-valued inputs) with an integer dtype:
+    # the minimiser depends on the values only
+    present = gen.choice(rs, ["C", "C", "F", "transposed-view", "readonly", "int-dtype"])
+    vin = v.copy()
+    if present == "F" and v.ndim == 2:
+        vin = np.asfortranarray(v)
+    elif present == "transposed-view" and v.ndim == 2:
+        vin = np.ascontiguousarray(v.T).T
+    elif present == "readonly":
+        vin.setflags(write=False)
+    elif present == "int-dtype" and np.all(v == np.round(v)) and float(np.max(np.abs(v), initial=0)) < 1e6:
+        vin = v.astype(np.int64 if rs.rand() < 0.7 else np.int32)
+    else:
+        present = "C"
+    desc["presented_as"] = present
+    ctx.count("presented_as/" + present)
+    out = f(vin)
     x = ref.hp(np.asarray(out))
     if refx is not None and x.shape != np.shape(refx) and x.size == np.size(refx):
         # monotone/unimodal return (n,1) for 1-D input; compare content
